@@ -187,12 +187,32 @@ fn simplex_case(hz: f64, rate: f64, frames: usize) -> Option<Bad> {
     None
 }
 
+/// Phase::next_phase_wrapped_to(rem) called directly with wrap values other than one cycle: each call
+/// returns the current phase and advances it by the step, wrapped to that call's `rem`
+/// (dyadic steps and wrap values: exact arithmetic in f64).
+fn wrapped_to_case(step8: usize, rems: &[usize]) -> Option<Bad> {
+    const REMS: [f64; 5] = [0.25, 0.5, 1.0, 2.0, 65536.0];
+    let step = step8 as f64 / 8.0;
+    let mut ph = signal::rate(8.0).const_hz(step8 as f64).phase();
+    let mut s = 0.0f64;
+    for (n, &ri) in rems.iter().enumerate() {
+        let rem = REMS[ri % 5];
+        let got = ph.next_phase_wrapped_to(rem);
+        if got != s {
+            return Some(("osc.wrapped_to".into(), format!("step {step}, wrap values {:?}: call {n} (wrapped to {rem}) returned {got}, expected {s}", rems.iter().map(|&r| REMS[r % 5]).collect::<Vec<_>>())));
+        }
+        s = (s + step) % rem;
+    }
+    None
+}
+
 fn replay(v: &Value) -> Option<String> {
     let f = |k: &str| f64::from_bits(v[k].as_str().and_then(|s| s.parse().ok()).unwrap_or(0));
     let us = |k: &str| v[k].as_u64().unwrap_or(0) as usize;
     let r = match v["sys"].as_str().unwrap_or("") {
         "const" => const_case(f("hz"), f("rate"), us("frames"), v["dyadic"].as_bool().unwrap_or(false)),
         "var" => var_case(f("rate"), &v["hzs"].as_array().map(|a| a.iter().map(|x| f64::from_bits(x.as_str().and_then(|s| s.parse().ok()).unwrap_or(0))).collect::<Vec<_>>()).unwrap_or_default(), v["dyadic"].as_bool().unwrap_or(false)),
+        "wrapped_to" => wrapped_to_case(us("step8"), &v["rems"].as_array().map(|a| a.iter().map(|x| x.as_u64().unwrap_or(0) as usize).collect::<Vec<_>>()).unwrap_or_default()),
         "noise" => noise_case(v["seed"].as_str().and_then(|s| s.parse().ok()).unwrap_or(0), us("frames")),
         "simplex" => simplex_case(f("hz"), f("rate"), us("frames")),
         _ => Some(("c17".into(), "unknown case".into())),
@@ -260,6 +280,19 @@ fn main() {
         evals.fetch_add(hzs.len() as u64, Relaxed);
         run(json!({"sys":"var","rate":b(*rate),"hzs":hzs.iter().map(|x| b(*x)).collect::<Vec<_>>(),"dyadic":dy}), "osc.panic", &|| var_case(*rate, hzs, *dy));
     });
+    // next_phase_wrapped_to with wrap values other than one cycle
+    let mut wts: Vec<(usize, Vec<usize>)> = Vec::new();
+    for step8 in [0usize, 1, 2, 3, 5, 6, 8, 12, 24, 60] {
+        for l in 1..=5usize {
+            for code in 0..5usize.pow(l as u32) {
+                wts.push((step8, (0..l).map(|j| (code / 5usize.pow(j as u32)) % 5).collect()));
+            }
+        }
+    }
+    wts.par_iter().for_each(|(step8, rems)| {
+        evals.fetch_add(rems.len() as u64, Relaxed);
+        run(json!({"sys":"wrapped_to","step8":step8,"rems":rems}), "osc.panic", &|| wrapped_to_case(*step8, rems));
+    });
     // noise
     let nframes = 1usize << 20;
     let mut seeds: Vec<(u64, usize)> = [0u64, 1, 2, 12_345, 1 << 31, (1 << 32) - 1, 1 << 32, 1 << 63, u64::MAX - (1 << 21)].iter().map(|&s| (s, nframes)).collect();
@@ -283,7 +316,7 @@ fn main() {
     ctx.add_evals(evals.load(Relaxed));
     ctx.set("exhaustive", json!(false));
     ctx.set("exhaustive_scope", json!("finite alphabets of steps / frequency sequences / seeds, enumerated completely; every per-frame sequence over 4 letters to the stated length; all 2^64 seeds and arbitrary real frequencies are not covered"));
-    ctx.rule(&format!("constant frequency: 10 dyadic steps x 3 rates (phase law exact: phase_n == frac(n*step), first phase 0, phase in [0,1)) and 8 non-dyadic (hz, rate) pairs run for {long} frames (tolerance n*2^-50); sine == sin(2 pi phase), saw == 1 - 2 phase, square == +1 for phase < 1/2 else -1, exactly, with the phase taken from an identically constructed Phase run in lock step; all outputs in [-1,1]; per-frame frequency: every sequence over 4 letters of length <= {maxl} (dyadic alphabet at rate 8, audio alphabet at 44100; and over {{0, 440, rate/2, 1.25 rate, 2.5 rate}} to length 5 at 44100, 48000, 88200, 96000, 192000 and 50000 Hz) through rate.hz(instrumented signal): one frequency frame consumed per output frame for phase, sine, saw and square; noise: 9 boundary seeds x 2^20 frames + every 64th seed below {dense}: range, clone/restart reproduce, frame k of noise(s) == frame 0 of noise(s+k); simplex: all multiples of 2^-8 in [0,65536) (quick: the first 2^22) and non-dyadic runs: range, purity; evaluations = frames generated; distinct by configuration"));
+    ctx.rule(&format!("constant frequency: 10 dyadic steps x 3 rates (phase law exact: phase_n == frac(n*step), first phase 0, phase in [0,1)) and 8 non-dyadic (hz, rate) pairs run for {long} frames (tolerance n*2^-50); sine == sin(2 pi phase), saw == 1 - 2 phase, square == +1 for phase < 1/2 else -1, exactly, with the phase taken from an identically constructed Phase run in lock step; all outputs in [-1,1]; per-frame frequency: every sequence over 4 letters of length <= {maxl} (dyadic alphabet at rate 8, audio alphabet at 44100; and over {{0, 440, rate/2, 1.25 rate, 2.5 rate}} to length 5 at 44100, 48000, 88200, 96000, 192000 and 50000 Hz) through rate.hz(instrumented signal): one frequency frame consumed per output frame for phase, sine, saw and square; Phase::next_phase_wrapped_to called directly: every sequence of up to 5 wrap values over {{1/4, 1/2, 1, 2, 65536}} x 10 dyadic steps, each call returns the current phase and advances it wrapped to that call's value, exactly; noise: 9 boundary seeds x 2^20 frames + every 64th seed below {dense}: range, clone/restart reproduce, frame k of noise(s) == frame 0 of noise(s+k); simplex: all multiples of 2^-8 in [0,65536) (quick: the first 2^22) and non-dyadic runs: range, purity; evaluations = frames generated; distinct by configuration"));
     ctx.sample(json!({"sys":"var","rate":b(8.0),"hzs":[b(6.0), b(20.0), b(0.0), b(1.0)],"dyadic":true}));
     ctx.sample(json!({"sys":"noise","seed":"4294967295","frames":1048576}));
     ctx.assume("seeds with seed + frames >= 2^64 are excluded: the internal counter then overflows (a panic in debug builds, a wrap in release), which the property does not speak about");
